@@ -5,8 +5,8 @@ META = dict(
     spec="SeekReader",
     level_text=("TLC checks the byte-reader model (size, off) with its outcome invariants and that the closed forms equal the "
                 "transcribed bytes.Reader+io.ReadFull reference; a design-level model of dagreader.go (leaf buffer, walker "
-                "position, blind seek in a single node) is checked to refine it.  Every Read/Seek/WriteTo sequence of length 2 "
-                "(quick) / 3 (thorough) over sizes 0..6, buffers 0..6, offsets -size-2..size+2, 3 whences + invalid whence, plus "
+                "position, blind seek in a single node) is checked to refine it.  Every Read/Seek/WriteTo sequence of length 2 (+ length 3 on sizes 0..2, quick) "
+                "/ 3 (thorough) over sizes 0..6, buffers 0..6, offsets -size-2..size+2, 3 whences + invalid whence, plus "
                 "simulated length-30 sequences, is replayed on real DagReaders over balanced/trickle DAGs with raw and dag-pb "
                 "leaves, chunk 1..3, width 2, and over DagModifier-produced DAGs, with Read, CtxReadFull and alternating APIs; "
                 "n, bytes, EOF, error and offset of every call are compared.  Random 30-op histories on files up to 2 MiB "
@@ -33,8 +33,12 @@ def run(ctx):
                coverage=not ctx.quick)
     # G
     behs = ctx.tlc_gen("SeekReader", "GenSeekReader.tla",
-                       "GenSeekReaderD2.cfg" if ctx.quick else "GenSeekReaderD3.cfg", timeout=2400,
-                       workers=4)
+                       "GenSeekReaderD2.cfg" if ctx.quick else "GenSeekReaderD3.cfg", timeout=3600,
+                       workers=4 if ctx.quick else 8)
+    if ctx.quick:   # depth 3 on a reduced alphabet (size 0..2, k 0..2): partial leaf read, seek, read again
+        behs3 = ctx.tlc_gen("SeekReader", "GenSeekReader.tla", "GenSeekReaderD3s.cfg", timeout=2400, workers=4)
+    else:
+        behs3 = []
     sims = ctx.tlc_gen("SeekReader", "GenSeekReader.tla", "GenSeekReaderSim.cfg",
                        simulate=12 if ctx.quick else 300, depth=31 * 10 + 1, timeout=900)
     binp = ctx.go_build("ipld/unixfs/mod", ["ipld/unixfs/mod/zz_verif_C09_test.go"])
@@ -47,7 +51,9 @@ def run(ctx):
             elif seeked and st["n"] > 0:
                 return True
         return False
-    for name, bl in (("bfs", behs), ("sim", sims)):
+    for name, bl in (("bfs", behs), ("bfs3s", behs3), ("sim", sims)):
+        if not bl:
+            continue
         if ctx.replay_behaviours(binp, "TestVerifC09", "ipld/unixfs/mod", bl, name=name,
                                  nontrivial=seek_then_data, timeout=2400) is None:
             return
